@@ -516,8 +516,8 @@ def _acquire_cannot_fail_before_push(idx, f, a):
   params = [p for p in A.param_names(callee.node) if p != 'self']
   g = C.cfg_of(callee.node)
   push_nodes = [n for n in g.nodes if n.ast is not None and any(
-      (A.call_name(c) or '').split('.')[-1] in ('append', 'thread_local_push')
-      and ('stack' in (A.call_name(c) or '')) for c in n.calls())]
+      (isinstance(c.func, ast.Attribute) and c.func.attr == 'append')
+      or (A.call_name(c) or '').split('.')[-1] == 'thread_local_push' for c in n.calls())]
   if not push_nodes:
     return False, f'no push found in {callee.fq}'
   tainted, _ = D.backward_slice_names(callee.node, set())
@@ -925,7 +925,16 @@ def rule_tls_api(ctx):
   ctx.ob('C17.c', f.fq, ok, 'per_thread=True stores the evaluate fn in thread-local storage only',
          f.loc, 'per_thread=True path writes the process-wide variable or skips TLS')
   f = idx.func('pyglove.core.hyper.dynamic_evaluation._DynamicEvaluationStack.push')
-  ok = 'self._local_stack if context.per_thread else self._global_stack' in A.unparse(f.node, 2000)
+  # structural: the object that receives the push resolves (through locals,
+  # conditional expressions and helper returns) to the thread-local or the
+  # global stack, selected by context.per_thread
+  from sa.rules import c09 as _c09
+  from sa import surface as _S
+  recvs = set()
+  for c in A.calls_in(f.node):
+    if isinstance(c.func, ast.Attribute) and c.func.attr == 'append':
+      recvs |= _c09._leaf_values(idx, f, c.func.value)
+  ok = recvs == {'self._local_stack', 'self._global_stack'} and 'per_thread' in _S.closure_text(idx, f)
   ctx.ob('C17.c', f.fq, ok, 'the evaluation stack is chosen by context.per_thread', f.loc,
          'stack selection changed')
 
